@@ -49,6 +49,51 @@ CLAIMED = {
              "mirsym interpreter + std models (io::copy, Take, read_exact, write_all), z3. Image/mask association and XML are outside.",
         technique="symbolic execution of rustc MIR into SMT (z3) from arbitrary abstract states, per-path claims, native replay of counterexamples",
         ref="§6 C06"),
+    "C02": dict(
+        engine="kani+mirsym",
+        text="Binary well-formedness decided against SPEC predicates written from the format rules: symbolic execution of finalize's real MIR from ANY writer state "
+             "(any earlier sections, any residue modulo 1020) with an arbitrary XML byte string shows the 48-byte header states the true file length, XML offset "
+             "(outside checksums), XML length and page size, the XML bytes lie at that offset and nothing else is disturbed; on the real page layer every page is valid "
+             "after the last write; blob sections have the specified header/payload/padding layout; all header serialisers produce the SPEC byte layout for all field values (Kani).",
+        note="XML text generation is replaced by an arbitrary byte string: XML well-formedness, namespaces and offsets published inside the XML are NOT covered. "
+             "Compressed-vector packet layout is under C01/C03. Trusted: mirsym + models, z3, Kani/CBMC.",
+        technique="symbolic execution of rustc MIR into SMT (z3) against format-rule predicates; Kani for field serialisers",
+        ref="§6 C02"),
+    "C07": dict(
+        engine="kani+mirsym",
+        text="(a) Kani: Crc32::new() builds exactly the CRC-32C table, calculate equals the bit-serial definition for all inputs up to 4 bytes and one fold step from any "
+             "register state equals 8 bit-serial steps (all 2^40 cases). (b) mirsym at the real page size, from ANY reader state and ANY device content: read returns Ok only with "
+             "bytes of a page whose big-endian stored checksum matches, Err exactly for an invalid page, the cache is dropped on failure and stays consistent also after an injected "
+             "device error following a short read; validate_crc returns Ok iff every page is valid; the writer seals every page with the checksum of its final payload.",
+        note="Real-page-size obligations use a sampled checksum (decides which bytes are summed and where/how the result is stored and compared); the CRC function itself is "
+             "decided by the Kani harnesses. Polynomial error-detection strength and the crc32c hardware backend are not covered.",
+        technique="bounded model checking (Kani/CBMC) of the CRC kernels + symbolic execution of MIR into SMT for the page layer",
+        ref="§6 C07"),
+    "C15": dict(
+        engine="kani+mirsym",
+        text="Symbolic execution of finalize over the REAL PagedWriter MIR with a log of device writes, from any writer state and any XML: every device write except the last "
+             "leaves header bytes 0..48 logically unchanged (the placeholder with xml offset = length = 0 stays), the last device write stores the final header, and after it "
+             "every page is valid and the XML is at the published offset. So every prefix of the device-write sequence short of the last write still carries the placeholder header.",
+        note="Granularity is whole device writes in issue order; torn single writes are excluded. That a placeholder header is rejected by the reader relies on the XML "
+             "parser rejecting an empty document (outside this technique).",
+        technique="symbolic execution of rustc MIR into SMT (z3) with a device event log",
+        ref="§6 C15"),
+    "C16": dict(
+        engine="mirsym",
+        text="Symbolic execution of the real MIR over a device whose transfers may be short (symbolic counts) and over a device/page layer that fails at a symbolic operation "
+             "index: under short transfers the same functional claims hold as with complete transfers (so bytes and results cannot depend on chunking); with one fault the call "
+             "in progress returns Err on every path (PagedWriter ops, PagedReader::read, Blob::write, finalize on both the contract-level and the real page layer, validate_crc).",
+        note="Bounds: <= 2 short transfers per device per call, one fault per call, device <= 8 pages. std write_all/read_exact/io::copy are modelled loops (trusted). Drop is exempt.",
+        technique="symbolic execution of rustc MIR into SMT (z3) with nondeterministic short transfers and a symbolic fault index",
+        ref="§6 C16"),
+    "C17": dict(
+        engine="mirsym",
+        text="For ANY reader state (any cursor; cache empty or holding any valid page; also after an injected failure) the results of seek_physical and read are decided to be functions "
+             "of device content and arguments only and the reader invariant is preserved, so history cannot influence later results (induction over operations); Blob::read and "
+             "extract_xml, started from an arbitrary reader cursor, depend on the device and descriptor only.",
+        note="Point iterators (QueueReader) are not covered here. Trusted: mirsym + models, z3.",
+        technique="symbolic execution of rustc MIR into SMT (z3), inductive step from arbitrary invariant state",
+        ref="§6 C17"),
 }
 
 NOT_APPLICABLE = {
